@@ -182,4 +182,30 @@ example : helperSem (Gen.arms .add) (.int .uint8 200) (.int .int8 (-1)) = .ok (.
   simp [refSem, armTypeOf, Helper.noFloat, Kind.maxRank, Kind.rank, conv, applyOp, Helper.op]
   decide
 
+/-! ### Reading the property's rank literally ("by width")
+
+The property text ranks kinds "unsigned kinds by width, then signed kinds by width, then float32, float64".
+The code ranks the platform-sized `uint` and `int` FIRST in their groups (helpers.go's `types` list and
+`typeWeight` agree on that, which is what `table_is_rule` and `typeWeight_is_rank` pin).  For all pairs of
+explicitly sized kinds the two rankings coincide; for `int`/`uint` against a narrower kind of the same
+signedness group — and `int` against any unsigned kind... — they do not: the code converts the 64-bit `int`
+DOWN to `int8`.  Recorded as known finding `c14:platform-int-ranked-below-narrow-kinds`. -/
+
+/-- the two rankings agree on every pair that does not involve `int` or `uint` -/
+theorem rank_agrees_with_width_on_sized_kinds :
+    ∀ ka ∈ Kind.all, ∀ kb ∈ Kind.all, ka ≠ .int → ka ≠ .uint → kb ≠ .int → kb ≠ .uint →
+      Kind.maxRank ka kb = Kind.maxRankW ka kb := by decide
+
+/-- … and where they differ the results differ: `int(200) + int8(1)` is `int8(-55)` by the code's rule
+    (proved equal to what the helpers compute, `helper_eq_ref`) and `int(201)` by width -/
+theorem width_rank_witness :
+    helperSem (Gen.arms .add) (.int .int 200) (.int .int8 1) = .ok (.int .int8 (-55)) ∧
+    refSemW .add (.int .int 200) (.int .int8 1) = .ok (.int .int 201) := by
+  constructor
+  · rw [helper_eq_ref]
+    simp [refSem, armTypeOf, Helper.noFloat, Kind.maxRank, Kind.rank, conv, applyOp, Helper.op]
+    decide
+  · simp [refSemW, armTypeOf, Helper.noFloat, Kind.maxRankW, Kind.rankW, conv, applyOp, Helper.op]
+    decide
+
 end ExprModel.C14
